@@ -29,8 +29,9 @@ from fractions import Fraction
 from typing import Any, Callable, Dict, List, Optional, Set, Tuple
 
 VERIF_DIR = os.path.dirname(os.path.dirname(os.path.abspath(__file__)))
-EVIDENCE_DIR = os.path.join(VERIF_DIR, "evidence")
-REPLAY_DIR = os.path.join(VERIF_DIR, "replays")
+# (the two overrides are used by tools/mutants.py only, so that sensitivity runs never touch the committed evidence)
+EVIDENCE_DIR = os.environ.get("RP2V_EVIDENCE_DIR") or os.path.join(VERIF_DIR, "evidence")
+REPLAY_DIR = os.environ.get("RP2V_REPLAY_DIR") or os.path.join(VERIF_DIR, "replays")
 REGRESS_DIR = os.path.join(VERIF_DIR, "regress")
 KNOWN_FINDINGS = os.path.join(VERIF_DIR, "known_findings.json")
 
@@ -82,20 +83,23 @@ def derive_seed(seed: int, check_id: str, shard: int) -> int:
 
 
 _SCRATCH: Optional[str] = None
+_SCRATCH_PID: int = -1
 
 
 def enter_scratch() -> str:
-    """Create a scratch dir and chdir into it, so that rp2's ./log never lands in /repo or /verif."""
-    global _SCRATCH
-    if _SCRATCH is None:
+    """Create a scratch dir and chdir into it, so that rp2's ./log never lands in /repo or /verif.
+    A forked child never reuses (or removes) the scratch directory of its parent."""
+    global _SCRATCH, _SCRATCH_PID
+    if _SCRATCH is None or _SCRATCH_PID != os.getpid():
         _SCRATCH = tempfile.mkdtemp(prefix="rp2v_")
+        _SCRATCH_PID = os.getpid()
         os.chdir(_SCRATCH)
     return _SCRATCH
 
 
 def leave_scratch() -> None:
     global _SCRATCH
-    if _SCRATCH is not None:
+    if _SCRATCH is not None and _SCRATCH_PID == os.getpid():
         os.chdir(VERIF_DIR)
         shutil.rmtree(_SCRATCH, ignore_errors=True)
         _SCRATCH = None
@@ -125,7 +129,7 @@ def match_known(mod: Any, case: Any, clause: str, detail: str, known: Dict[str, 
 # shard worker
 
 
-def _shard_worker(check_id: str, tier: str, seed: int, shard: int, examples: int, shrink: bool, deadline_s: float) -> Dict[str, Any]:
+def _shard_worker(check_id: str, tier: str, seed: int, shard: int, examples: int, shrink: bool, deadline_s: float, machine_examples: int = 0, machine_steps: int = 14) -> Dict[str, Any]:
     os.environ.setdefault("PYTHONHASHSEED", "0")
     result: Dict[str, Any] = {
         "shard": shard,
@@ -150,7 +154,9 @@ def _shard_worker(check_id: str, tier: str, seed: int, shard: int, examples: int
         known = known_for(check_id)
         hashes: Set[int] = set()
         sample_classes: Set[str] = set()
-        state = {"failed": False}
+        state = {"failed": False, "failed_at": 0.0}
+        failing: Set[int] = set()
+        shrink_cap_s = 15.0 if tier == "quick" else 90.0
         start = time.time()
 
         def record(case: Any, out: Outcome) -> None:
@@ -179,6 +185,8 @@ def _shard_worker(check_id: str, tier: str, seed: int, shard: int, examples: int
             if time.time() - start > deadline_s and not state["failed"]:
                 result["budget_exhausted"] = True
                 return
+            if state["failed"] and time.time() - state["failed_at"] > shrink_cap_s and case_hash(case) not in failing:
+                return  # shrink budget used up: stop exploring smaller cases (known failing cases still fail -> no flakiness)
             out = mod.evaluate(case)
             record(case, out)
             for clause, detail in out.violations:
@@ -187,7 +195,10 @@ def _shard_worker(check_id: str, tier: str, seed: int, shard: int, examples: int
                     if not state["failed"]:
                         result["known_hits"][sig] = result["known_hits"].get(sig, 0) + 1
                     continue
-                state["failed"] = True
+                if not state["failed"]:
+                    state["failed"] = True
+                    state["failed_at"] = time.time()
+                failing.add(case_hash(case))
                 raise Violation(clause, detail, case)
 
         phases = [Phase.generate, Phase.shrink] if shrink else [Phase.generate]
@@ -203,13 +214,26 @@ def _shard_worker(check_id: str, tier: str, seed: int, shard: int, examples: int
         )
         derived = derive_seed(seed, check_id, shard)
         try:
-            if hasattr(mod, "machine"):
+            if hasattr(mod, "machine") and machine_examples > 0:
                 from hypothesis.stateful import run_state_machine_as_test
 
-                machine_cls = mod.machine(tier, record, known, state, result)
-                run_state_machine_as_test(hseed(derived)(machine_cls), settings=cfg)
-            else:
-                test = hseed(derived)(cfg(given(mod.strategy(tier))(body)))
+                def raise_or_known(case: Any, clause: str, detail: str) -> None:
+                    """Used by state machines: same known-finding / shrink-cap handling as `body`."""
+                    sig = match_known(mod, case, clause, detail, known)
+                    if sig is not None:
+                        if not state["failed"]:
+                            result["known_hits"][sig] = result["known_hits"].get(sig, 0) + 1
+                        return
+                    if not state["failed"]:
+                        state["failed"] = True
+                        state["failed_at"] = time.time()
+                    raise Violation(clause, detail, case)
+
+                machine_cls = mod.machine(tier, record, raise_or_known)
+                mcfg = settings(cfg, max_examples=machine_examples, stateful_step_count=machine_steps)
+                run_state_machine_as_test(hseed(derived)(machine_cls), settings=mcfg)
+            if hasattr(mod, "strategy") and examples > 0:
+                test = hseed(derived ^ 0x5A5A)(cfg(given(mod.strategy(tier))(body)))
                 test()
         except Violation as vio:
             result["violation"] = {"clause": vio.clause, "detail": vio.detail, "case": jsonable(vio.case)}
@@ -377,7 +401,10 @@ def run_check(check_id: str, tier: str, seed: int, examples_override: Optional[i
     # 2. sharded generated search
     if shards > 0 and examples > 0 and (hasattr(mod, "strategy") or hasattr(mod, "machine")):
         with ProcessPoolExecutor(max_workers=min(shards, os.cpu_count() or 16)) as pool:
-            futures = [pool.submit(_shard_worker, check_id, tier, seed, k, examples, shrink, deadline_s) for k in range(shards)]
+            futures = [
+                pool.submit(_shard_worker, check_id, tier, seed, k, examples, shrink, deadline_s, int(budget.get("machine_examples", 0)), int(budget.get("machine_steps", 14)))
+                for k in range(shards)
+            ]
             for fut in as_completed(futures):
                 res = fut.result()
                 if res["error"]:
